@@ -1,6 +1,7 @@
 import MorfuseModel.Sched.NotifyLemmas
 import MorfuseModel.Sched.MachineHostProps
 import MorfuseModel.Sched.MachineNotifyTraceHost
+import MorfuseModel.Sched.MachineLifeTraceHost
 /-!
 # C07 — waittill / notify: no lost, early or duplicate wake-ups  (table layer)
 
@@ -403,5 +404,48 @@ theorem C07_trace_removed_source {s : State} (h : Reachable s) :
 example : nRun [] [.reg 50 7 101, .reg 50 7 102] = (runOps {} demoWaiters).notify ∧
     nRun [] [.reg 50 7 101, .reg 50 7 102, .notify 50 7] = (runOps {} (demoWaiters ++ [.step 5])).notify := by
   decide +kernel
+
+/-! ### destroyed threads never proceed (with the creation / destruction ledger of `Props/C13.lean`) -/
+
+/-- `StoppedWaitFor` on a thread that has no record or has lost its VM does nothing: it is neither executed, nor
+    resumed, nor re-timed (for any fuel; with no fuel the call only raises the fuel flag). -/
+theorem C07_machine_destroyed_not_woken (fuel : Nat) (s : State) (t name : Nat) (d : Bool)
+    (h : ∀ th, s.th? t = some th → th.hasVM = false) :
+    stoppedWaitFor fuel s t name d = s ∨ stoppedWaitFor fuel s t name d = { s with outOfFuel := true } := by
+  cases fuel with
+  | zero => right; rw [stoppedWaitFor_zero]
+  | succ fuel =>
+    left
+    rw [stoppedWaitFor_succ]
+    split
+    · rfl
+    · cases hf : s.th? t with
+      | none => rfl
+      | some th =>
+        simp only
+        rw [h th hf]
+        rfl
+
+/-- **A destroyed thread never proceeds, trace level.**  In the ledger of thread creations and destructions of any
+    reachable state, a thread id with a destruction record has no record in the state (ids are never reused), so
+    every later `StoppedWaitFor` on it — from a notify that still lists it, from the removal of a source, from a
+    cancelled wait — does nothing: threads destroyed by `endon`, by the removal of the source they waited on, or by
+    `Reset()` never run again. -/
+theorem C07_trace_destroyed_never_wakes {s : State} (h : Reachable s) :
+    ∃ opsT : List POp, pRun pool0T opsT = some (absT s) ∧
+      ∀ t, POp.del t ∈ opsT → s.th? t = none ∧
+        ∀ fuel name d, stoppedWaitFor fuel s t name d = s ∨ stoppedWaitFor fuel s t name d = { s with outOfFuel := true } := by
+  obtain ⟨⟨opsT, hT⟩, _⟩ := reachable_life_history h
+  refine ⟨opsT, hT, ?_⟩
+  intro t hd
+  have hnone : s.th? t = none := by
+    cases hf : s.th? t with
+    | none => rfl
+    | some th =>
+      exfalso
+      rw [State.th?_eq] at hf
+      have hm : t ∈ (absT s).ids := List.mem_map.2 ⟨(t, th), thFind_some_mem hf, rfl⟩
+      exact ((mem_after opsT t pool0T_good hT).1 hm).2 hd
+  exact ⟨hnone, fun fuel name d => C07_machine_destroyed_not_woken fuel s t name d (fun th hf => by rw [hnone] at hf; cases hf)⟩
 
 end Morfuse.Sched
